@@ -36,7 +36,16 @@ def _rid(k: int) -> str:
 class ReconnHarness:
     COMPUTER = "pc"
     UOD = "uod"
-    NAMES = [("pc", "uod"), ("lab_pc 7", "uod_A"), ("pc", "uod/ü")]     # engine ids with separator / special characters
+    # (observed engine, second engine): engine ids with the separator and url-quoted characters, and pairs whose ids
+    # match each other when an id is (mis)used as a case-insensitive / LIKE pattern: `_` = any character, `%` = any
+    # string, upper = lower case
+    NAMES = [(("pc", "uod"), ("other-pc", "other")),
+             (("lab_pc 7", "uod_A"), ("lab-pc 7", "uod-A")),
+             (("pc", "uod/ü"), ("PC", "UOD/Ü")),
+             (("LAB-PC", "Pump-A"), ("LAB-PC", "Pump_A")),       # the other's `_` covers our `-`
+             (("lab-pc", "pumpXa"), ("LAB-PC", "PUMP_A")),       # wildcard + case
+             (("pc", "u25"), ("pc", "u%"))]                      # the other's quoted `%` (u%25) covers our id
+    OTHER = ("other-pc", "other")
 
     def __init__(self) -> None:
         self.interval = 0          # data_log_interval_seconds the engine reports
@@ -72,9 +81,10 @@ class ReconnHarness:
 
     def configure(self, name: int = 0, interval: int = 0, epoch: int = 0) -> None:
         """Per case: which engine (name), its log interval, its clock epoch.  Call right after `wipe()`."""
-        self.COMPUTER, self.UOD = self.NAMES[name % len(self.NAMES)]
+        (self.COMPUTER, self.UOD), self.OTHER = self.NAMES[name % len(self.NAMES)]
         self.interval, self.epoch = interval, epoch
         self.engine_id = self.agg.create_engine_id(self._register_msg())
+        self.other_id = self.agg.create_engine_id(self._register_msg(other=True))
 
     def wipe(self) -> None:
         """Empty every table and start a fresh process (cheaper than a new database per case)."""
@@ -90,7 +100,7 @@ class ReconnHarness:
         import openpectus.protocol.engine_messages as EM
         from openpectus import __version__
         if other:
-            return EM.RegisterEngineMsg(computer_name="other-pc", uod_name="other", uod_author_name="",
+            return EM.RegisterEngineMsg(computer_name=self.OTHER[0], uod_name=self.OTHER[1], uod_author_name="",
                                         uod_author_email="", uod_filename="", location="", engine_version=__version__)
         return EM.RegisterEngineMsg(computer_name=self.COMPUTER, uod_name=self.UOD, uod_author_name="",
                                     uod_author_email="", uod_filename="", location="", engine_version=__version__)
@@ -202,6 +212,8 @@ class ReconnHarness:
         D = self.DMdl
         ed = self.agg.get_registered_engine_data(self.engine_id)
         f: dict[str, Any] = {"registered": ed is not None, "run": None, "lp": None, "tt": None, "ss": None, "st": None}
+        oed = self.agg.get_registered_engine_data(self.other_id)
+        f["other_run"] = oed.run_data.run_id if oed is not None and oed.has_run() else None
         if ed is not None:
             if ed.has_run():
                 f["run"] = ed.run_data.run_id
